@@ -2,5 +2,5 @@ SPECIFICATION Spec
 CONSTANTS
   MaxLen = 4
   MaxCap = 5
-INVARIANTS AccessorsAgree RingLive WriteMapOK EmitCont
+INVARIANTS AccessorsAgree RingLive WriteMapOK SetOneOK EmitCont
 CHECK_DEADLOCK FALSE
